@@ -109,6 +109,7 @@ class MinSetCover():
             }
             return True
         else:
+            self._is_solved = False
             self.solve_statistics = {
                 "solve_time": time.perf_counter() - start_time,
                 "status": self.solver.get_model_status(),
@@ -120,14 +121,12 @@ class MinSetCover():
         Returns `True` if the model was solved, `False` otherwise.
         """
         if self._is_solved is None:
-            self.solver.logger.error(f"{__name__}: Model not yet solved. If you want to solve it, call the `solve` method first.")
             raise Exception("Model not yet solved. If you want to solve it, call the `solve` method first.")
         
         return self._is_solved
     
     def check_is_solved(self):
         if not self.is_solved():
-            self.solver.logger.error(f"{__name__}: Model not solved. If you want to solve it, call the `solve` method first.")
             raise Exception(
                 "Model not solved. If you want to solve it, call the solve method first. \
                   If you already ran the solve method, then the model is infeasible, or you need to increase parameter time_limit."
